@@ -15,6 +15,14 @@ VERIF = os.path.dirname(os.path.dirname(os.path.abspath(__file__)))
 PROPS = "C01 C02 C03 C04 C05 C06 C07 C08 C09 C10 C11 C12 C13 C14 C15 C16 C17 C18 C19 C20".split()
 ENV = dict(os.environ, GOFLAGS="-mod=mod", GOPROXY="off", GOSUMDB="off", GOTOOLCHAIN="local", GOWORK="off")
 
+# second operator set (--set 2): statement deletion and arithmetic / update operators
+MUTS2 = [
+    (r" \+ ", " - "), (r" - ", " + "), (r" \* ", " / "), (r" \+= ", " = "), (r" \+= ", " -= "), (r"\+\+", "--"),
+    (r" \| ", " & "), (r" << ", " >> "), (r"\[i\]", "[0]"), (r"\bnil\b", "err"), (r"\buint32\(", "uint16("), (r"\blen\(", "cap("),
+]
+STMT = re.compile(r"^\s*(defer\s+)?[A-Za-z_][\w\.\[\]\*, ]*(\(.*\)|\s*(=|\+=|-=|\|=|&=|<<=|>>=)\s.*|\+\+|--)\s*$")
+OPSET = 1
+
 MUTS = [
     (r" < ", " <= "), (r" <= ", " < "), (r" > ", " >= "), (r" >= ", " > "),
     (r" == ", " != "), (r" != ", " == "), (r" && ", " || "), (r" \|\| ", " && "),
@@ -44,7 +52,9 @@ def mutants(path):
         code = line.split("//")[0]
         if '"' in code and code.count('"') >= 2 and ("Errorf" in code or "errors.New" in code):
             continue
-        for k, (pat, rep) in enumerate(MUTS):
+        if OPSET == 2 and STMT.match(code) and not code.rstrip().endswith("{") and ":=" not in code:
+            out.append((path, i, 99, line[:len(line) - len(line.lstrip())] + "// deleted"))
+        for k, (pat, rep) in enumerate(MUTS if OPSET == 1 else MUTS2):
             m = re.search(pat, code)
             if not m:
                 continue
@@ -94,6 +104,9 @@ def main():
     while i < len(a):
         if a[i] == "-j": j = int(a[i+1]); i += 2
         elif a[i] == "--bin": binp = a[i+1]; i += 2
+        elif a[i] == "--set":
+            global OPSET
+            OPSET = int(a[i+1]); i += 2
         else: files.append(a[i]); i += 1
     ms = []
     for f in files:
